@@ -599,6 +599,7 @@ def run_C04(ctx):
                 ctx.violation('counterexample', 'grammar %s: %s (the model cell is the documented resolution by theorems C04_*)' % (name, what),
                               dict(grammar=name, grammar_text=be['texts'][name], grammar_sha=vlib.sha(be['texts'][name]), detail=what), interface=itf)
     ctx.extra['resolve_pairs'] = resolve_exhaustive(ctx)
+    ctx.extra['rule_precedence'] = rule_prec_frontend(ctx)
     ctx.extra['prec_grammars'] = len(ctx.nontrivial)
     # expression grammars: the value computed by every real parser against the model's
     n = 0
@@ -610,6 +611,50 @@ def run_C04(ctx):
                               case_of(out, d['grammar'], variant=d['variant'], input=d.get('part', d['payload']), observed=d['impl'], expected=d['model']), interface='I6')
     if not had_counterexample(ctx):
         report_corr(ctx, backend_diffs(be), {'I4', 'I4w'}, 'C04')
+
+
+def rule_prec_frontend(ctx):
+    """Precedence of every rule and terminal as the implementation reads it from the file (alternatives grouped
+    with `|`, %prec anywhere in the list) against the declarations: a rule takes the level of its %prec symbol,
+    else of its last terminal that has one; a terminal the level (line ordinal) and associativity of its line."""
+    import front
+    rnd = random.Random(ctx.seed * 811 + 3)
+    n = 60 if ctx.quick else 600
+    work = os.path.join(vlib.WORK, 'c04f-%d' % os.getpid())
+    shutil.rmtree(work, ignore_errors=True)
+    os.makedirs(work)
+    specs, paths, texts = [], [], []
+    try:
+        for i in range(n):
+            g = gram.operator_grammar(rnd) if i % 2 == 0 else gram.random_usable(rnd, nT=rnd.randint(2, 5), nN=rnd.randint(1, 3), p_prec=1.0, max_alts=4)
+            sp = front.decorate(g, rnd, actions=False)
+            t = front.render(sp, rnd, rnd.choice(['plain', 'random']))
+            p = os.path.join(work, 'o%d.y' % i)
+            open(p, 'w').write(t)
+            specs.append(sp); paths.append(p); texts.append(t)
+        res = front.run_front(paths)
+        bad = 0
+        with_prec = 0
+        for i, (sp, t, (d, m, vd)) in enumerate(zip(specs, texts, res)):
+            ctx.evaluations += 1
+            if not d.get('ok'):
+                continue
+            want, got = front.denote(sp), front.read_back(d)
+            if any(r['prec'] for r in want['rules']):
+                with_prec += 1
+                ctx.nontrivial.add('ruleprec%d' % i)
+            diffs = []
+            for k, (a, b) in enumerate(zip(want['rules'], got['rules'])):
+                if a['prec'] != b['prec']:
+                    diffs.append('rule %d (%s -> %s) takes its precedence from %r, the declarations say %r' % (k + 1, a['lhs'], ' '.join(a['rhs']), b['prec'], a['prec']))
+            if want['prec'] != got['prec']:
+                diffs.append('terminal precedence (level, assoc) read as %s, declared %s' % (sorted(got['prec'].items()), sorted(want['prec'].items())))
+            if diffs:
+                bad += 1
+                ctx.violation('counterexample', 'precedence as read from the file: ' + '; '.join(diffs[:2]), dict(grammar='o%d' % i, grammar_text=t, grammar_sha=vlib.sha(t), observed=diffs[:4]), interface='I1p')
+        return dict(specs=n, with_rule_precedence=with_prec, failures=bad)
+    finally:
+        shutil.rmtree(work, ignore_errors=True)
 
 
 def resolve_exhaustive(ctx):
